@@ -145,6 +145,14 @@ def LitKind.re (k : LitKind) : Re := reOfTok k.tok
 /-- the body regex `(\\.|[^d])` under the star of the literal's terminal -/
 def LitKind.bodyRe (k : LitKind) : Re := ((splitLit k.re).map (·.2)).getD .empty
 
+/-- `(\\.|[^d])`: the class after the backslash and the class of plain characters -/
+def bodyClasses : Re → Option (Cls × Cls)
+  | .alt (.cat (.cls ⟨[(92, 92)], false⟩) (.cls any)) (.cls nd) => some (any, nd)
+  | _ => none
+
+def LitKind.anyCls (k : LitKind) : Cls := ((bodyClasses k.bodyRe).map (·.1)).getD ⟨[], false⟩
+def LitKind.ndCls (k : LitKind) : Cls := ((bodyClasses k.bodyRe).map (·.2)).getD ⟨[], false⟩
+
 /-- `t` is a possible body of a literal of kind `k`: `t ∈ L((\\.|[^d])*)`. -/
 def isBody (k : LitKind) (t : List Nat) : Bool := matchesRe (.star k.bodyRe) t
 
@@ -156,6 +164,13 @@ def notShadowed (k : LitKind) (t : List Nat) : Bool :=
 /-- The exact condition under which the printed literal, alone, is read back as one literal token
     of its kind with the same body. -/
 def litOk (k : LitKind) (t : List Nat) : Bool := isBody k t && notShadowed k t
+
+/-- The condition under which the printed literal is read back as one literal token of its kind
+    with the same body IN EVERY CONTEXT (whatever text follows): a body that does not end in a
+    backslash; a `/…/` body moreover is not empty and does not start with `*` (`//…` and `/*…` are
+    comments). -/
+def litOkCtx (k : LitKind) (t : List Nat) : Bool :=
+  isBody k t && t.getLast? != some 92 && (k != .regex || (t != [] && t.head? != some 42))
 
 /-! ### Protocol: printers -/
 
